@@ -104,7 +104,11 @@ fn gen_abstract_heavy(src: &mut Src) -> rawlib::RLib {
 
 // Each conversion: description (choices) -> (transcript, number of keys in the largest unordered map on the path)
 fn conv_raw_to_gds(src: &mut Src) -> Result<(String, usize), String> {
-    let m = if src.bool() { gen_abstract_heavy(src) } else { rawlib::gen_rawlib(src, &RawGenOpts { abstracts: false, pico: true, annotations: false, nets_need_label_purpose: true, nonrect_nets: false, max_cells: 4, closed_polygons: false, abs_only_cells: true, shared_purpose_numbers: false }) };
+    let mut m = if src.bool() { gen_abstract_heavy(src) } else { rawlib::gen_rawlib(src, &RawGenOpts { abstracts: false, pico: true, annotations: false, nets_need_label_purpose: true, nonrect_nets: false, max_cells: 4, closed_polygons: false, abs_only_cells: true, shared_purpose_numbers: false }) };
+    // a library may be nameless (every LEF import is)
+    if src.prob(1, 4) {
+        m.name = String::new();
+    }
     // only cells without a layout are exported from their abstract
     let keys = m.cells.iter().filter(|c| !c.has_layout).filter_map(|c| c.abs.as_ref()).flat_map(|a| a.ports.iter().map(|p| p.shapes.len())).max().unwrap_or(0);
     let b = rawlib::build(&m);
@@ -115,7 +119,10 @@ fn conv_raw_to_gds(src: &mut Src) -> Result<(String, usize), String> {
     Ok((t, keys))
 }
 fn conv_raw_to_proto(src: &mut Src) -> Result<(String, usize), String> {
-    let m = if src.bool() { gen_abstract_heavy(src) } else { rawlib::gen_rawlib(src, &RawGenOpts { abstracts: true, pico: false, annotations: true, nets_need_label_purpose: false, nonrect_nets: true, max_cells: 4, closed_polygons: false, abs_only_cells: true, shared_purpose_numbers: false }) };
+    let mut m = if src.bool() { gen_abstract_heavy(src) } else { rawlib::gen_rawlib(src, &RawGenOpts { abstracts: true, pico: false, annotations: true, nets_need_label_purpose: false, nonrect_nets: true, max_cells: 4, closed_polygons: false, abs_only_cells: true, shared_purpose_numbers: false }) };
+    if src.prob(1, 4) {
+        m.name = String::new();
+    }
     let keys = m.cells.iter().filter_map(|c| c.abs.as_ref()).map(|a| a.blockages.len().max(a.ports.iter().map(|p| p.shapes.len()).max().unwrap_or(0))).max().unwrap_or(0);
     let b = rawlib::build(&m);
     let t = match b.lib.to_proto() {
@@ -138,6 +145,12 @@ fn conv_gds_to_raw(src: &mut Src) -> Result<(String, usize), String> {
 }
 fn conv_lef_raw_lef(src: &mut Src) -> Result<(String, usize), String> {
     let (mut lib, _) = crate::props::c16::gen_lib(src);
+    // a LEF file may define a macro name twice; the importer keeps both, in file order
+    if lib.macros.len() >= 2 && src.prob(1, 4) {
+        let n = lib.macros[0].name.clone();
+        let k = lib.macros.len() - 1;
+        lib.macros[k].name = n;
+    }
     // paths cannot be exported to LEF (unimplemented!): keep rectangles and polygons
     let keep = |l: &mut lef21::LefLayerGeometries| l.geometries.retain(|g| !matches!(g, lef21::LefGeometry::Shape(lef21::LefShape::Path(..)) | lef21::LefGeometry::Iterate { .. }));
     for m in lib.macros.iter_mut() {
